@@ -1078,3 +1078,5 @@ V("C19", "lammps-box-style-per-call", LMPF, "        for i in range(xyz.shape[0]
 V("C19", "twin-lammps-frame-count-hoisted", LMPF, "        for i in range(xyz.shape[0]):\n            # --- begin header ---", "        n_frames = xyz.shape[0]\n        for i in range(n_frames):\n            # --- begin header ---", None)
 V("C20", "save-pops-force-overwrite", TRJ, "        # run the saver, and return whatever output it gives\n        return saver(filename, **kwargs)", "        force_overwrite = kwargs.pop(\"force_overwrite\", True)\n        if not force_overwrite and os.path.exists(filename):\n            raise OSError('\"%s\" already exists' % filename)\n        return saver(filename, **kwargs)", "C20-R2")
 V("C20", "twin-save-reads-force-overwrite", TRJ, "        # run the saver, and return whatever output it gives\n        return saver(filename, **kwargs)", "        if not kwargs.get(\"force_overwrite\", True) and os.path.exists(filename):\n            raise OSError('\"%s\" already exists' % filename)\n        return saver(filename, **kwargs)", None)
+V("C04", "hash-bonds-in-list-order", TOPF, "        hash_value ^= hash(tuple(sorted(self._bonds)))", "        hash_value ^= hash(tuple(self._bonds))", "C04-R3")
+V("C04", "twin-hash-bonds-frozenset", TOPF, "        hash_value ^= hash(tuple(sorted(self._bonds)))", "        hash_value ^= hash(frozenset(self._bonds))", None)
